@@ -3,7 +3,7 @@ import ast
 from .. import alg
 from ..alg import Rat, C
 from ..symval import _single_atom, IteV
-from ..model import stmt_text
+from ..model import stmt_text, AnalysisError
 from ..rules import where
 
 
@@ -871,6 +871,51 @@ def longitude_range_rule(repo, rep):
     else:
         rep.holds('R-RANGE', key, where(f, f.node), 'the returned longitude stays inside [%s, %s], the range geo2grid accepts, for zones 1..60 and the %d ISG zones (%d configurations)' % (
             lo_ok, hi_ok, len(isg_zones), n_cfg))
+
+
+def standalone_longitude_rule(repo, rep):
+    """the stand-alone converter returns 'the same latitude and longitude as the library': the same REPRESENTATIVE of the longitude, too.
+    The library folds the longitude of zones 60 / 1 into [-180, 180]; a copy that returns cm + long_diff unfolded differs from it by a whole
+    turn there (181.2 against -178.8).  Same interval analysis as for the library routine, on the copy's module-level projection table."""
+    from ..intervals import Interp, TOP
+    m = repo.module('Standalone.mga2gda')
+    f = m.functions.get('grid2geo')
+    if f is None:
+        raise AnalysisError('anchor vanished: Standalone/mga2gda.py grid2geo')
+    key = 'R-RANGE::Standalone/mga2gda.py::grid2geo::longitude-representative-of-the-library'
+    table = None
+    for st in m.tree.body:
+        if isinstance(st, ast.Assign) and len(st.targets) == 1 and isinstance(st.targets[0], ast.Name) and st.targets[0].id == 'proj' and isinstance(st.value, (ast.List, ast.Tuple)):
+            table = st.value.elts
+    if table is None:
+        rep.undecided('R-RANGE', key, where(f, f.node), 'module-level projection table `proj` of the stand-alone converter not found')
+        return
+    attrs = {}
+    for i, e in enumerate(table):
+        try:
+            v = ast.literal_eval(e)
+        except (ValueError, SyntaxError):
+            v = None
+            if isinstance(e, ast.Call) and getattr(e.func, 'id', '') == 'Decimal' and e.args and isinstance(e.args[0], ast.Constant):
+                v = float(e.args[0].value)
+        if isinstance(v, (int, float)):
+            attrs[('proj', i)] = (v, v)
+    ip = Interp({f.params[0].name: (1, 60)}, attrs=attrs)
+    ip.run(list(f.node.body), dict(ip.env))
+    if not ip.returns:
+        rep.undecided('R-RANGE', key, where(f, f.node), 'no return reached by the interval analysis')
+        return
+    for st, val in ip.returns:
+        v = val[1] if isinstance(val, tuple) and len(val) > 1 else TOP
+        if v is TOP:
+            rep.undecided('R-RANGE', key, where(f, st), 'the interval of the returned longitude is not bounded by the analysis')
+            return
+        if v[0] < -180 - 1e-9 or v[1] > 180 + 1e-9:
+            rep.violated('R-RANGE', key, where(f, st), 'the stand-alone grid2geo returns longitudes over [%.6g, %.6g] for zones 1..60; the library folds its longitude into [-180, 180]: east of the '
+                         'central meridian of zone 60 (west of that of zone 1) the two differ by a whole turn - stand-alone grid2geo(60, 900000, 6500000) gives 181.21332727704, the library '
+                         '-178.78667272296 (the property asks for agreement within 1e-10 degrees)' % v, expected='[-180, 180], as geodepy.convert.grid2geo', actual='[%.6g, %.6g]' % v)
+            return
+    rep.holds('R-RANGE', key, where(f, f.node), 'the stand-alone grid2geo keeps its longitude inside [-180, 180] for zones 1..60, like the library routine')
 
 
 def identity_flag_rule(repo, rep, modname):
